@@ -1451,6 +1451,45 @@ def norm_method(ctx, rel: str, clsname: str, name: str, keep=()):
     return fs[0]
 
 
+def inline_predicates(normcls, origcls, keep=()):
+    """In place, on a normalised class: a call ``self._helper()`` in EXPRESSION position whose (private, not kept) helper is just ``return <expr>`` over ``self``
+    is replaced by that expression (norm_class inlines helpers at statement level only). Idempotent."""
+    from sa.props._lib_c import clone, set_parents
+    if getattr(normcls, "_sa_pred_inlined", False):
+        return normcls
+    preds = {}
+    for n in origcls.body:
+        if isinstance(n, ast.FunctionDef) and n.name.startswith("_") and not n.name.startswith("__") and n.name not in keep and not n.decorator_list:
+            a = n.args
+            if len(a.args) != 1 or a.vararg or a.kwarg or a.kwonlyargs or getattr(a, "posonlyargs", []):
+                continue
+            body = [st for st in n.body if not (isinstance(st, ast.Expr) and isinstance(st.value, ast.Constant) and isinstance(st.value.value, str))]
+            if len(body) == 1 and isinstance(body[0], ast.Return) and body[0].value is not None and \
+                    not any(isinstance(x, (ast.Yield, ast.YieldFrom, ast.Await, ast.Lambda, ast.NamedExpr)) for x in ast.walk(body[0].value)):
+                preds[n.name] = (a.args[0].arg, body[0].value)
+
+    class T(ast.NodeTransformer):
+        changed = False
+
+        def visit_Call(self, c):
+            self.generic_visit(c)
+            if isinstance(c.func, ast.Attribute) and isinstance(c.func.value, ast.Name) and c.func.value.id == "self" and c.func.attr in preds \
+                    and not c.args and not c.keywords and preds[c.func.attr][0] == "self":
+                T.changed = True
+                return ast.copy_location(clone(preds[c.func.attr][1]), c)
+            return c
+    if preds:
+        for _ in range(4):
+            T.changed = False
+            T().visit(normcls)
+            if not T.changed:
+                break
+        ast.fix_missing_locations(normcls)
+        set_parents(normcls, getattr(normcls, "_parent", None))
+    normcls._sa_pred_inlined = True
+    return normcls
+
+
 _NORM_FUNCS: Dict[tuple, ast.AST] = {}
 
 
